@@ -86,6 +86,7 @@ const (
 func (g *Gen) sexpr(sc *scope) *SExpr {
 	x := &SExpr{ID: g.id()}
 	r := g.R
+	isLit := false
 	choices := 6
 	switch c := r.Intn(choices + len(sc.strs) + len(sc.ints)); {
 	case c == 0 || c == 1:
@@ -93,9 +94,10 @@ func (g *Gen) sexpr(sc *scope) *SExpr {
 		x.Go = fmt.Sprintf("a.S[%d]", i)
 		x.Eval = func(e *Env) string { return e.A.S[i] }
 	case c == 2:
-		lit := pick(r, []string{"w1", "w2", "k&l", "m<n"})
-		x.Go = fmt.Sprintf("%q", lit)
+		lit := pick(r, []string{"w1", "w2", "k&l", "m<n", "<b>x</b>", `a"b'c`, "&lt;", `x&y<z>"'`, "é<ü"})
+		x.Go = goLiteral(r, lit)
 		x.Eval = func(e *Env) string { return lit }
+		isLit = true
 	case c == 3:
 		i := r.Intn(4)
 		x.Go = fmt.Sprintf("a.S[%d] + \"x\"", i)
@@ -120,7 +122,58 @@ func (g *Gen) sexpr(sc *scope) *SExpr {
 	}
 	x.Err = r.Intn(5) == 0
 	x.Multi = r.Intn(8) == 0
+	if isLit && r.Intn(2) == 0 {
+		x.Bare, x.Err, x.Multi = true, false, false
+	}
 	return x
+}
+
+// goLiteral spells a string as a Go literal in one of the ways the language
+// allows: strconv.Quote, every byte as \xNN, every rune as \uNNNN, every byte
+// in octal, metacharacters only as escapes, or a raw string.
+func goLiteral(r *rand.Rand, lit string) string {
+	var sb strings.Builder
+	switch r.Intn(6) {
+	case 0:
+		sb.WriteByte('"')
+		for i := 0; i < len(lit); i++ {
+			fmt.Fprintf(&sb, `\x%02x`, lit[i])
+		}
+		sb.WriteByte('"')
+	case 1:
+		sb.WriteByte('"')
+		for _, c := range lit {
+			fmt.Fprintf(&sb, `\u%04x`, c)
+		}
+		sb.WriteByte('"')
+	case 2:
+		sb.WriteByte('"')
+		for i := 0; i < len(lit); i++ {
+			fmt.Fprintf(&sb, `\%03o`, lit[i])
+		}
+		sb.WriteByte('"')
+	case 3:
+		sb.WriteByte('"')
+		for _, c := range lit {
+			switch c {
+			case '<', '>', '&', '\'':
+				fmt.Fprintf(&sb, `\x%02x`, c)
+			case '"':
+				sb.WriteString(`\u0022`)
+			default:
+				sb.WriteRune(c)
+			}
+		}
+		sb.WriteByte('"')
+	case 4:
+		if !strings.Contains(lit, "`") {
+			return "`" + lit + "`"
+		}
+		return fmt.Sprintf("%q", lit)
+	default:
+		return fmt.Sprintf("%q", lit)
+	}
+	return sb.String()
 }
 
 func (g *Gen) bexpr(sc *scope) *BExpr {
@@ -195,8 +248,8 @@ func (g *Gen) attrs(sc *scope, elem string, used map[string]bool, depth int) []*
 		case k < 4:
 			a.Kind = AConst
 			a.Name = name()
-			a.Val = pick(r, []string{"v", "a b", "x&y", "1<2", "", "it's", `say "hi"`, "é", "a=b", "p>q", `back\slash`, "`tick`", "100%d", `\"`, "&amp;", "a  b"})
-			a.Quote = pick(r, []byte{'"', '"', '\'', 0})
+			a.Val = pick(r, []string{"v", "a b", "x&y", "1<2", "", "it's", `say "hi"`, "é", "a=b", "p>q", `back\slash`, "`tick`", "100%d", `\"`, "&amp;", "a  b", `it's "q"`, `5' x='y' "`, `"'`, `'"' a=b`})
+			a.Quote = pick(r, []byte{'"', '"', '\'', '\'', 0})
 		case k < 5:
 			a.Kind = ABoolConst
 			a.Name = name()
